@@ -5,6 +5,7 @@ use crate::engine::{Ctx, Failure};
 use serde_json::Value;
 
 pub mod c01;
+pub mod c02;
 pub mod c03;
 pub mod c04;
 pub mod c18;
@@ -12,6 +13,7 @@ pub mod c18;
 pub fn run(prop: &str, ctx: &mut Ctx) -> bool {
     match prop {
         "C01" => c01::run(ctx),
+        "C02" => c02::run(ctx),
         "C03" => c03::run(ctx),
         "C04" => c04::run(ctx),
         "C18" => c18::run(ctx),
@@ -23,6 +25,7 @@ pub fn run(prop: &str, ctx: &mut Ctx) -> bool {
 pub fn replay(prop: &str, case: &Value) -> Option<Vec<Failure>> {
     Some(match prop {
         "C01" => c01::replay(case),
+        "C02" => c02::replay(case),
         "C03" => c03::replay(case),
         "C04" => c04::replay(case),
         "C18" => c18::replay(case),
